@@ -2,3 +2,4 @@ import Cfdp.Model.Segments
 import Cfdp.Lemmas.Segments
 import Cfdp.Props.C09
 import Cfdp.Props.C14
+import Cfdp.Props.C12
